@@ -29,12 +29,36 @@ from harness.core import to_dec, to_dec2
 
 ELEMENTS = ['C', 'H', 'N', 'O', 'Pt']            # sorted; model descriptor k <-> GRID_NAMES[k-1]
 GROUPS = ['CH2', 'CH3', 'CO', 'OH', 'ring']
-ABSENT = {'elements': ['S', 'Zn'], 'groups': ['aldehyde', 'ester']}
+ABSENT = {'elements': ['S', 'Zn'], 'groups': ['aldehyde', 'ester']}   # every non-element descriptor uses 'groups'
 GRID_NAMES = ['C', 'H', 'O']
+DESCRIPTOR_ATTRS = ['groups', 'bonds', 'my_descriptor']
 MAXDEN = 5000
 
 
 # ----------------------------------------------------------------------------- objects
+UNITS = ['kJ/mol', 'eV', 'kcal/mol', 'J/mol']
+CTYPES = ['int', 'float', 'npint', 'npfloat']
+TTYPES = ['float', 'int', 'npfloat']
+
+
+def _typed(comp, ctype):
+    """The composition dictionary with its counts as int / float / numpy integer / numpy float."""
+    import numpy as np
+    conv = {'int': lambda v: int(v) if float(v).is_integer() else float(v), 'float': float,
+            'npint': lambda v: np.int64(v) if float(v).is_integer() else np.float64(v),
+            'npfloat': np.float64}[ctype or 'int']
+    return {k: conv(v) for k, v in comp.items()}
+
+
+def _typedT(T, ttype):
+    import numpy as np
+    if ttype == 'int' and float(T).is_integer():
+        return int(T)
+    if ttype == 'npfloat':
+        return np.float64(T)
+    return float(T)
+
+
 def _statmech(spec, comp, descriptor, refs=None):
     """A real StatMech species: ground-state electronic energy + harmonic vibrations
     (+ translation for 'gas' species)."""
@@ -45,6 +69,7 @@ def _statmech(spec, comp, descriptor, refs=None):
         kw.update(vib_model=vib.HarmonicVib, vib_wavenumbers=list(spec['wn']))
     if spec.get('mw'):
         kw.update(trans_model=trans.FreeTrans, n_degrees=3, molecular_weight=spec['mw'])
+    comp = _typed(comp, spec.get('ctype'))
     if descriptor == 'elements':
         kw['elements'] = dict(comp)
     if refs is not None:
@@ -56,21 +81,31 @@ def _statmech(spec, comp, descriptor, refs=None):
 
 
 def _reference(spec, descriptor):
-    """A real Reference whose model is a real StatMech species.  spec['d'] (grid cases):
-    the experimental value is placed d below the model value; spec['exp']: given."""
+    """A real Reference whose model is a real StatMech species (given as the class plus its
+    keyword arguments, or as an instance).  spec['d'] (grid cases): the experimental value is
+    placed d below the model value; spec['exp']: given."""
     from pmutt.empirical.references import Reference
     from pmutt.statmech import StatMech, elec, vib, trans
-    kw = dict(name=spec.get('name'), T_ref=spec['T'], HoRT_ref=0., model=StatMech,
-              elec_model=elec.GroundStateElec, potentialenergy=spec['E'], spin=0.)
+    mkw = dict(elec_model=elec.GroundStateElec, potentialenergy=spec['E'], spin=0.)
     if spec.get('wn'):
-        kw.update(vib_model=vib.HarmonicVib, vib_wavenumbers=list(spec['wn']))
+        mkw.update(vib_model=vib.HarmonicVib, vib_wavenumbers=list(spec['wn']))
     if spec.get('mw'):
-        kw.update(trans_model=trans.FreeTrans, n_degrees=3, molecular_weight=spec['mw'])
+        mkw.update(trans_model=trans.FreeTrans, n_degrees=3, molecular_weight=spec['mw'])
+    comp = _typed(spec['comp'], spec.get('ctype'))
+    kw = dict(name=spec.get('name'), T_ref=_typedT(spec['T'], spec.get('Ttype')), HoRT_ref=0.,
+              phase=spec.get('phase'))
     if descriptor == 'elements':
-        kw['elements'] = dict(spec['comp'])
+        kw['elements'] = dict(comp)
+    elif spec.get('phase'):
+        kw['elements'] = {'H': 1}                   # an elements dict besides the descriptor used
+    if spec.get('form') == 'instance':
+        kw['model'] = StatMech(name=spec.get('name'), **mkw)
+    else:
+        kw['model'] = StatMech
+        kw.update(mkw)
     ref = Reference(**kw)
     if descriptor != 'elements':
-        setattr(ref, descriptor, dict(spec['comp']))
+        setattr(ref, descriptor, dict(comp))
     ref._c10_uid = spec.get('uid')
     if 'exp' in spec:
         ref.HoRT_ref = float(spec['exp'])
@@ -104,59 +139,93 @@ def _d2(v):
     return to_dec2(v)
 
 
-def _state_event(ev, R, mirror, descriptor, mobjs):
+def _state_event(ev, R, mirror, descriptor, mobjs, by_identity=True):
     """Projection of the References object after a call.  `mirror` is the driver's own list
     of the reference specs that should now be in the object, `mobjs` the Reference objects
-    built from them (names may be None or repeated, so the list is compared by identity)."""
+    built from them (names may be None or repeated, so the list is compared by identity;
+    after a reload by name and data)."""
     mism = []
     desc = sorted({k for s in mirror for k in s['comp']})
     A = [[int(s['comp'].get(k, 0)) for k in desc] for s in mirror]
-    held = list(R)
-    if len(held) != len(mobjs) or any(a is not b for a, b in zip(held, mobjs)):
+    held = list(R) if R.references is not None else []
+    if by_identity:
+        same = len(held) == len(mobjs) and all(a is b for a, b in zip(held, mobjs))
+    else:
+        same = ([(r.name, float(r.T_ref), float(r.HoRT_ref)) for r in held]
+                == [(r.name, float(r.T_ref), float(r.HoRT_ref)) for r in mobjs])
+    if not same:
         mism.append({'clause': 'ListEdit', 'expected': [s['uid'] for s in mirror],
-                     'got': [getattr(r, '_c10_uid', '?') for r in held]})
-    real_desc = list(R.get_descriptors())
-    real_A = [[float(v) for v in row] for row in R.get_descriptors_matrix().tolist()]
-    if real_desc != desc or real_A != [[float(v) for v in row] for row in A]:
-        mism.append({'clause': 'DescriptorMatrix', 'expected': [desc, A], 'got': [real_desc, real_A]})
+                     'got': [getattr(r, '_c10_uid', r.name) for r in held]})
+    if held:
+        real_desc = list(R.get_descriptors())
+        real_A = [[float(v) for v in row] for row in R.get_descriptors_matrix().tolist()]
+        if real_desc != desc or real_A != [[float(v) for v in row] for row in A]:
+            mism.append({'clause': 'DescriptorMatrix', 'expected': [desc, A], 'got': [real_desc, real_A]})
     keys = sorted(R.offset.keys())
     e = {'ev': ev, 'A': A, 'desc': desc, 'keys': keys,
-         'names': ['' if r.name is None else str(r.name) for r in R],
+         'names': ['' if r.name is None else str(r.name) for r in held],
          'off': [_d(R.offset[k]) for k in keys], 'Tref': _d(R.T_ref),
          # each reference's OWN model enthalpy, evaluated here directly from its species
-         'dft': [_d(r.model.get_HoRT(T=r.T_ref)) for r in R],
-         'exp': [_d(r.HoRT_ref) for r in R], 'Ti': [_d(r.T_ref) for r in R],
+         'dft': [_d(r.model.get_HoRT(T=r.T_ref)) for r in held],
+         'exp': [_d(r.HoRT_ref) for r in held], 'Ti': [_d(r.T_ref) for r in held],
          # off . x_i as the object evaluates it (double precision witness of the fitted values)
          'fitv': [_d(-R.get_HoRT(descriptors=s['comp'])) for s in mirror]}
     return e, mism
 
 
-def _vals(sp, T, on):
+def _vals(sp, T, on, units):
     kw = {} if on is None else {'use_references': on}
     return {'H': sp.get_HoRT(T=T, **kw), 'G': sp.get_GoRT(T=T, **kw), 'S': sp.get_SoR(T=T, **kw),
             'Cp': sp.get_CpoR(T=T, **kw), 'Cv': sp.get_CvoR(T=T, **kw),
-            'HkJ': sp.get_H(T=T, units='kJ/mol', **kw)}
+            'HkJ': sp.get_H(T=T, units=units, **kw), 'GkJ': sp.get_G(T=T, units=units, **kw)}
 
 
-def _eval_event(R, tgt, Ts):
+def _empirical(tgt, kind):
+    """A NASA / Shomate species fitted to the referenced StatMech species; value at its anchor."""
+    from pmutt.empirical.nasa import Nasa
+    from pmutt.empirical.shomate import Shomate
+    cls = Nasa if kind == 'nasa' else Shomate
+    emp = cls.from_model(model=tgt['on'], name='emp', T_low=200., T_high=1500., elements={'H': 1})
+    T0 = 298.15
+    return {'has': True, 'kind': kind, 'H': _d(emp.get_HoRT(T=T0)), 'Hon': _d(tgt['on'].get_HoRT(T=T0)),
+            'Hoff': _d(tgt['on'].get_HoRT(T=T0, use_references=False))}
+
+
+def _eval_event(R, tgt, Ts, units, emp=None):
     from pmutt import constants as c
     keys = sorted(R.offset.keys())
     comp = tgt['comp']
-    e = {'ev': 'eval', 'keys': keys, 'x': [int(comp.get(k, 0)) for k in keys],
+    tcomp = getattr(tgt['on'], R.descriptor)           # the dictionary the species really carries
+    e = {'ev': 'eval', 'keys': keys, 'x': [core.to_dec_exact(float(comp.get(k, 0))) for k in keys],
          'absent': sorted(k for k in comp if k not in R.offset and comp[k]),
-         'T': [_d(T) for T in Ts], 'R': _d(c.R('kJ/mol/K')),
-         'Hon': [], 'Hoff': [], 'Gon': [], 'Goff': [], 'HkJon': [], 'HkJoff': [],
-         'S': [], 'Cp': [], 'Cv': [], 'H2': [], 'G2': []}
+         'T': [_d(T) for T in Ts], 'R': _d(c.R('%s/K' % units)), 'units': units,
+         'Hon': [], 'Hoff': [], 'Gon': [], 'Goff': [], 'HkJon': [], 'HkJoff': [], 'GkJon': [], 'GkJoff': [],
+         'S': [], 'Cp': [], 'Cv': [], 'H2': [], 'G2': [], 'Hdef': [], 'Hrep': [], 'ver': [],
+         'Hdir': [], 'Hdir2': [], 'Gdir2': [],
+         'zeros': [_d2(v) for v in (R.get_SoR(), R.get_CpoR(), R.get_CvoR(), R.get_UoRT(),
+                                    R.get_AoRT(descriptors=tcomp, T=Ts[0]))],
+         'HnoT': _d(R.get_HoRT(descriptors=tcomp)),
+         'emp': emp or {'has': False}}
     for T in Ts:
-        on, off, none = _vals(tgt['on'], T, True), _vals(tgt['on'], T, False), _vals(tgt['none'], T, None)
+        on, off = _vals(tgt['on'], T, True, units), _vals(tgt['on'], T, False, units)
+        none = _vals(tgt['none'], T, None, units)
         e['Hon'].append(_d(on['H']))
         e['Hoff'].append(_d(off['H']))
         e['Gon'].append(_d(on['G']))
         e['Goff'].append(_d(off['G']))
         e['HkJon'].append(_d(on['HkJ']))
         e['HkJoff'].append(_d(off['HkJ']))
+        e['GkJon'].append(_d(on['GkJ']))
+        e['GkJoff'].append(_d(off['GkJ']))
         for q, key in (('S', 'S'), ('Cp', 'Cp'), ('Cv', 'Cv'), ('H', 'H2'), ('G', 'G2')):
             e[key].append([_d2(on[q]), _d2(off[q]), _d2(none[q])])
+        e['Hdef'].append(_d2(tgt['on'].get_HoRT(T=T)))                       # use_references omitted
+        e['Hrep'].append(_d2(tgt['on'].get_HoRT(T=T, use_references=True)))  # second call
+        e['ver'].append(_d2(tgt['on'].get_HoRT(T=T, verbose=True)[5]))
+        hdir = R.get_HoRT(descriptors=tcomp, T=T)
+        e['Hdir'].append(_d(hdir))
+        e['Hdir2'].append(_d2(hdir))
+        e['Gdir2'].append(_d2(R.get_GoRT(descriptors=tcomp, T=T)))
     return e
 
 
@@ -197,15 +266,32 @@ def _matches(proj, snap, names):
 # ----------------------------------------------------------------------------- one history
 def execute(case):
     """Run one history through a real References object.  Returns (events, mismatches)."""
+    import json as _json
     from pmutt.empirical.references import References
+    from pmutt.io.json import pmuttEncoder, json_to_pmutt
     descriptor = case['descriptor']
+    units = case.get('units', 'kJ/mol')
     events, mism = [], []
     R = None
     mirror = []
     mobjs = []
     targets = []
     lin = None
-    Ts = case['T']
+    Ts = [_typedT(T, case.get('Ttype')) for T in case['T']]
+    by_identity = True
+
+    def species():
+        """(re)build the species that share the References object for the rest of the history"""
+        tg = [{'comp': t['comp'], 'on': _statmech(t, t['comp'], descriptor, refs=R),
+               'none': _statmech(t, t['comp'], descriptor)} for t in case['targets']]
+        ln = None
+        if case.get('lin'):
+            c = case['lin']
+            ln = {'a': c['a'], 'b': c['b']}
+            for nm in ('x', 'y', 'z'):
+                ln[nm] = _statmech(c['model'], c[nm], descriptor, refs=R)
+        return tg, ln
+
     with warnings.catch_warnings():
         warnings.simplefilter('ignore')
         for k, op in enumerate(case['ops']):
@@ -215,16 +301,13 @@ def execute(case):
                     mirror = list(op['refs'])
                     mobjs = [_reference(s, descriptor) for s in mirror]
                     R = References(references=list(mobjs), descriptor=descriptor)
-                    # species that share the References object for the whole history
-                    for t in case['targets']:
-                        targets.append({'comp': t['comp'],
-                                        'on': _statmech(t, t['comp'], descriptor, refs=R),
-                                        'none': _statmech(t, t['comp'], descriptor)})
-                    if case.get('lin'):
-                        ln = case['lin']
-                        lin = {'a': ln['a'], 'b': ln['b']}
-                        for nm in ('x', 'y', 'z'):
-                            lin[nm] = _statmech(ln['model'], ln[nm], descriptor, refs=R)
+                    targets, lin = species()
+                elif act == 'given':                    # offsets passed in: nothing is fitted
+                    mirror = list(op.get('refs', []))
+                    mobjs = [_reference(s, descriptor) for s in mirror]
+                    R = References(offset=dict(op['offset']), T_ref=op['Tref'], descriptor=descriptor,
+                                   references=list(mobjs) if mobjs else None)
+                    targets, lin = species()
                 elif act == 'append':
                     new_ref = _reference(op['refs'][0], descriptor)
                     mirror.append(op['refs'][0])
@@ -234,12 +317,17 @@ def execute(case):
                     new_refs = [_reference(s, descriptor) for s in op['refs']]
                     mirror.extend(op['refs'])
                     mobjs.extend(new_refs)
-                    R.extend(new_refs)
+                    R.extend(new_refs if op.get('as', 'list') == 'list' else tuple(new_refs))
                 elif act == 'insert':
                     new_ref = _reference(op['refs'][0], descriptor)
                     mirror.insert(op['i'], op['refs'][0])
                     mobjs.insert(op['i'], new_ref)
                     R.insert(op['i'], new_ref)
+                elif act == 'setitem':
+                    new_ref = _reference(op['refs'][0], descriptor)
+                    mirror[op['i']] = op['refs'][0]
+                    mobjs[op['i']] = new_ref
+                    R[op['i']] = new_ref
                 elif act == 'pop':
                     if op.get('default'):
                         mirror.pop()
@@ -249,6 +337,28 @@ def execute(case):
                         mirror.pop(op['i'])
                         mobjs.pop(op['i'])
                         R.pop(op['i'])
+                elif act == 'remove':
+                    obj = mobjs[op['i']]
+                    mirror.pop(op['i'])
+                    mobjs.pop(op['i'])
+                    R.remove(obj)
+                elif act == 'clear':
+                    R.clear_offset()
+                elif act == 'reload':
+                    if op.get('via') == 'json':
+                        R = _json.loads(_json.dumps(R, cls=pmuttEncoder), object_hook=json_to_pmutt)
+                    else:
+                        R = References.from_dict(R.to_dict())
+                    # new objects: compared with the old ones by name and data, then taken as the list
+                    if ([(r.name, float(r.T_ref), float(r.HoRT_ref)) for r in R]
+                            != [(r.name, float(r.T_ref), float(r.HoRT_ref)) for r in mobjs]):
+                        mism.append({'clause': 'ListEdit', 'step': k, 'act': act,
+                                     'expected': [s_['uid'] for s_ in mirror], 'got': [r.name for r in R]})
+                    mobjs = list(R)
+                    if descriptor != 'elements':        # an attribute set by the user is not serialised
+                        for r, s in zip(R, mirror):
+                            setattr(r, descriptor, _typed(s['comp'], s.get('ctype')))
+                    targets, lin = species()
                 elif act == 'fit':
                     R.fit_HoRT_offset()
                 else:
@@ -260,20 +370,27 @@ def execute(case):
                              'raised': '%s: %s' % (type(ex).__name__, ex)})
                 break
             try:
-                ev, mm = _state_event(act, R, mirror, descriptor, mobjs)
+                ev, mm = _state_event(act, R, mirror, descriptor, mobjs, by_identity)
                 for m in mm:
                     m['step'] = k
+                    m['act'] = act
                 mism.extend(mm)
+                if act == 'given':
+                    gk = sorted(op['offset'])
+                    ev.update(gkeys=gk, goff=[_d(op['offset'][k_]) for k_ in gk], gTref=_d(op['Tref']))
                 events.append(ev)
                 if 'expect' in op:
                     proj = _projection(R, mirror)
                     exp = op['expect']
                     if not (_matches(proj, exp['cur'], case['names']) or
-                            _matches(proj, exp['fresh'], case['names'])):
+                            (act != 'given' and _matches(proj, exp['fresh'], case['names']))):
                         mism.append({'clause': 'ReplayState', 'step': k, 'act': act, 'got': proj,
                                      'expected_as_code': exp['cur'], 'expected_fresh': exp['fresh']})
-                for t in targets:
-                    events.append(_eval_event(R, t, Ts))
+                for j, t in enumerate(targets):
+                    emp = None
+                    if j == 0 and case.get('emp') and act in ('construct', 'fit', 'given'):
+                        emp = _empirical(t, case['emp'])
+                    events.append(_eval_event(R, t, Ts, units, emp))
                 if lin is not None:
                     events.append(_linear_event(lin, Ts[0]))
                 if act in ('construct', 'fit'):
@@ -302,30 +419,44 @@ def _grid_refspec(r, idx, rnd):
 def _beh_to_case(h, cid, rnd):
     ops = []
     count = 0
+    nd = len(h[0]['arg'][0]['x'])
+    names = GRID_NAMES[:nd]
     for rec in h:
         op = {'act': rec['act'], 'expect': {'cur': rec['cur'], 'fresh': rec['fresh']},
               'isfresh': rec['isfresh'], 'det': rec['det'], 'n': rec['n']}
-        if rec['act'] in ('construct', 'append', 'extend'):
+        if rec['act'] in ('construct', 'append', 'extend', 'given'):
             op['refs'] = []
             for r in rec['arg']:
                 op['refs'].append(_grid_refspec(r, count, rnd))
                 count += 1
-        elif rec['act'] == 'insert':
+            if rec['act'] == 'extend':
+                op['as'] = rnd.choice(['list', 'tuple'])
+            if rec['act'] == 'given':               # the offsets TLC chose, passed to the constructor
+                cur = rec['cur']
+                op['offset'] = {names[k - 1]: v[0] / v[1] for k, v in zip(cur['keys'], cur['off'])}
+                op['Tref'] = cur['tref'][0] / cur['tref'][1]
+        elif rec['act'] in ('insert', 'setitem'):
             op['refs'] = [_grid_refspec(rec['arg'][0], count, rnd)]
             op['i'] = rec['arg'][1]
             count += 1
         elif rec['act'] == 'pop':
             op['i'] = rec['arg'][0]
             op['default'] = bool(rec['arg'][1]) and rnd.random() < 0.5
+        elif rec['act'] == 'remove':
+            op['i'] = rec['arg'][0]
+        elif rec['act'] == 'reload':
+            op['via'] = rnd.choice(['dict', 'json'])
         ops.append(op)
-    nd = len(h[0]['arg'][0]['x'])
-    names = GRID_NAMES[:nd]
+    form = rnd.choice(['class', 'instance'])
+    for o in ops:
+        for sp in o.get('refs', []):
+            sp['form'] = form
     tg = {'comp': {names[0]: 1, names[-1]: 2, 'S': 1}, 'E': -7.5, 'wn': [900.0, 1800.0]}
     lin = {'a': 2, 'b': 1, 'model': {'E': -4.0, 'wn': [1500.0]},
            'x': {names[0]: 1}, 'y': {names[-1]: 1, 'Zn': 1},
            'z': dict([(names[0], 2), (names[-1], 1), ('Zn', 1)]) if nd > 1 else {names[0]: 3, 'Zn': 1}}
     return {'cid': cid, 'kind': 'grid', 'descriptor': 'elements', 'names': names, 'ops': ops,
-            'targets': [tg], 'lin': lin, 'T': [250.0, 800.0]}
+            'targets': [tg], 'lin': lin, 'T': [250.0, 800.0], 'units': rnd.choice(UNITS)}
 
 
 def _rand_comp(rnd, names, dens=0.6, hi=4):
@@ -356,14 +487,37 @@ def _assign_names(rnd, ops):
 
 def _finish_case(rnd, cid, descriptor, names, ops, shape, tmode, T0):
     naming = _assign_names(rnd, ops)
-    absent = ABSENT[descriptor]
+    absent = ABSENT.get(descriptor, ABSENT['groups'])
+    # forms of the reference species: composition counts as int / float / numpy scalars, model as a
+    # class + keyword arguments or as an instance, phase, T_ref as int where it is a whole number
+    form = rnd.choice(['class', 'instance'])
+    json_ok = True
+    for o in ops:
+        for sp in o.get('refs', []):
+            sp['ctype'] = rnd.choice(CTYPES)
+            sp['form'] = form
+            sp['phase'] = rnd.choice([None, None, 'G', 'S'])
+            sp['Ttype'] = rnd.choice(TTYPES)
+            json_ok = json_ok and sp['ctype'] in ('int', 'float')
+    for o in ops:
+        if o['act'] == 'reload':
+            o['via'] = rnd.choice(['dict', 'json']) if json_ok else 'dict'   # numpy counts in JSON: C11
     targets = []
     for i in range(2):
-        comp = _rand_comp(rnd, names, dens=0.7)
-        if rnd.random() < 0.4:
-            comp[rnd.choice(absent)] = rnd.randint(1, 3)
-        targets.append({'comp': comp, 'E': rnd.uniform(-40.0, -1.0),
-                        'wn': [rnd.uniform(150.0, 3900.0) for _ in range(rnd.randint(0, 4))]})
+        kind = rnd.choice(['int', 'int', 'int', 'fractional', 'empty', 'all_absent'])
+        if kind == 'empty':
+            comp = {}
+        elif kind == 'all_absent':
+            comp = {a: rnd.randint(1, 3) for a in absent}
+        else:
+            comp = _rand_comp(rnd, names, dens=0.7)
+            if kind == 'fractional':                # e.g. per-site or averaged compositions
+                comp = {k: v * rnd.choice([0.5, 0.25, 1.5, 1.0]) for k, v in comp.items()}
+            if rnd.random() < 0.4:
+                comp[rnd.choice(absent)] = rnd.randint(1, 3)
+        targets.append({'comp': comp, 'E': rnd.uniform(-40.0, -1.0), 'ctype': rnd.choice(CTYPES),
+                        'tkind': kind,
+                        'wn': [rnd.uniform(150.0, 3900.0) for _ in range(rnd.randint(0 if i else 1, 4))]})
     x = _rand_comp(rnd, names, dens=0.6, hi=3)
     y = _rand_comp(rnd, names + absent[:1], dens=0.6, hi=3)
     a, b = rnd.randint(1, 3), rnd.randint(1, 3)
@@ -374,11 +528,14 @@ def _finish_case(rnd, cid, descriptor, names, ops, shape, tmode, T0):
         z[ky] = z.get(ky, 0) + b * v
     lin = {'a': a, 'b': b, 'model': {'E': rnd.uniform(-20.0, -1.0), 'wn': [rnd.uniform(300.0, 3000.0)]},
            'x': x, 'y': y, 'z': z}
-    T1 = rnd.choice([rnd.uniform(100.0, 2000.0), T0])
-    T2 = rnd.uniform(100.0, 2000.0)
+    # any T: the reference temperature itself, both ends of 10 .. 5000 K, whole numbers (also passed as
+    # int), anything in between
+    T1 = rnd.choice([T0, T0, 10.0, 5000.0, float(rnd.randint(50, 3000)), rnd.uniform(10.0, 5000.0)])
+    T2 = rnd.choice([float(rnd.randint(50, 3000)), rnd.uniform(10.0, 5000.0), rnd.uniform(100.0, 2000.0)])
     return {'cid': cid, 'kind': 'real', 'descriptor': descriptor, 'names': names, 'ops': ops,
             'targets': targets, 'lin': lin, 'T': [T1, T2], 'shape': shape, 'tmode': tmode,
-            'naming': naming}
+            'naming': naming, 'Ttype': rnd.choice(TTYPES), 'units': rnd.choice(UNITS),
+            'emp': rnd.choice([None, None, 'nasa', 'shomate']), 'form': form}
 
 
 def _refspec(rnd, i, comp, T, exp=None):
@@ -430,13 +587,14 @@ def _square_singular_case(rnd, cid, descriptor, pool, rows=None, how=None):
 
 
 def _random_case(rnd, cid):
-    descriptor = 'elements' if rnd.random() < 0.7 else 'groups'
+    # the descriptor dictionary: elements, or any other attribute of the reference / species objects
+    descriptor = 'elements' if rnd.random() < 0.6 else rnd.choice(DESCRIPTOR_ATTRS)
     pool = ELEMENTS if descriptor == 'elements' else GROUPS
-    nd = rnd.randint(1, 5)
+    nd = rnd.choice([1, 2, 3, 4, 5, 5])
     names = sorted(rnd.sample(pool, nd))
-    nref = rnd.randint(1, 8)
+    nref = rnd.choice([1, 2, 3, 4, 5, 6, 7, 8, 8])
     shape = rnd.choice(['free', 'free', 'square', 'dependent_rows', 'tied_columns', 'under',
-                        'square_singular'])
+                        'square_singular', 'isomers'])
     if shape == 'square_singular':
         return _square_singular_case(rnd, cid, descriptor, pool)
     if shape == 'square':
@@ -445,12 +603,19 @@ def _random_case(rnd, cid):
         nref = rnd.randint(1, nd)
     comps = []
     for i in range(nref):
-        if shape == 'dependent_rows' and comps and rnd.random() < 0.5:
+        if shape == 'isomers' and comps and rnd.random() < 0.6:
+            comps.append(dict(rnd.choice(comps)))        # same composition, different data (isomer)
+        elif shape == 'dependent_rows' and comps and rnd.random() < 0.5:
             base = rnd.choice(comps)
             mult = rnd.choice([1, 2])
             comps.append({k: v * mult for k, v in base.items()})
         else:
             comps.append(_rand_comp(rnd, names, hi=3 if shape == 'dependent_rows' else 4))
+    if nd < 5 and rnd.random() < 0.1:
+        # a descriptor that is only ever listed with count 0 (an all-zero column of the matrix)
+        extra = rnd.choice([n for n in pool if n not in names])
+        comps[0][extra] = 0
+        names = sorted(names + [extra])
     if shape == 'tied_columns' and nd >= 2:
         a, b = names[0], names[1]                    # two descriptors that always come together
         for cmp_ in comps:
@@ -458,14 +623,20 @@ def _random_case(rnd, cid):
                 v = cmp_.get(a, cmp_.get(b))
                 cmp_[a] = v
                 cmp_[b] = 2 * v
-    tmode = rnd.choice(['equal', 'equal', 'close', 'spread'])
-    T0 = rnd.choice([298.15, 298.0, 300.0, 273.15, 500.0])
+    # reference temperatures: equal; equal to 2e-7; just inside / just outside the tolerance below which
+    # the library treats them as equal (numpy.isclose: 1e-5 relative); spread by a kelvin or so
+    tmode = rnd.choice(['equal', 'equal', 'equal', 'close', 'edge_in', 'edge_out', 'spread'])
+    T0 = rnd.choice([298.15, 298.15, 298.0, 300.0, 273.15, 500.0])
     refs = []
     for i, comp in enumerate(comps):
         if tmode == 'equal':
             T = T0
         elif tmode == 'close':
             T = T0 * (1.0 + rnd.uniform(-2e-7, 2e-7))
+        elif tmode == 'edge_in':
+            T = T0 if i == 0 else T0 * (1.0 + rnd.choice([-1, 1]) * 0.9e-5)
+        elif tmode == 'edge_out':
+            T = T0 if i == 0 else T0 * (1.0 + rnd.choice([-1, 1]) * 1.2e-5)
         else:
             T = T0 + rnd.uniform(-1.5, 1.5)
         spec = {'uid': 'ref%d' % i, 'name': 'ref%d' % i, 'comp': comp, 'E': rnd.uniform(-40.0, -1.0),
@@ -475,32 +646,54 @@ def _random_case(rnd, cid):
             spec['mw'] = rnd.uniform(2.0, 120.0)
         refs.append(spec)
     k0 = rnd.randint(1, nref)
-    ops = [{'act': 'construct', 'refs': refs[:k0]}]
+    start = rnd.random()
+    if start < 0.12:
+        # offsets passed to the constructor (nothing fitted), with or without references
+        given = {n: rnd.choice([rnd.uniform(-200.0, 50.0), float(rnd.randint(-50, 50)), 0.0]) for n in names
+                 if rnd.random() < 0.8} or {names[0]: -12.5}
+        with_refs = rnd.random() < 0.7
+        ops = [{'act': 'given', 'offset': given, 'Tref': rnd.choice([298.15, 400.0, T0, 1000.0]),
+                'refs': refs[:k0] if with_refs else []}]
+        if not with_refs:
+            if rnd.random() < 0.3:
+                ops.append({'act': 'clear'})
+            return _finish_case(rnd, cid, descriptor, names, ops, shape, tmode, T0)
+    else:
+        ops = [{'act': 'construct', 'refs': refs[:k0]}]
     rest = refs[k0:]
     cur = k0
-    for _ in range(rnd.randint(0, 4)):
+    for _ in range(rnd.randint(0, 5)):
         r = rnd.random()
-        if rest and r < 0.35:
+        if rest and r < 0.25:
             ops.append({'act': 'append', 'refs': [rest.pop(0)]})
             cur += 1
-        elif rest and r < 0.42:
-            ops.append({'act': 'insert', 'i': rnd.randrange(0, cur + 1), 'refs': [rest.pop(0)]})
+        elif rest and r < 0.32:
+            ops.append({'act': 'insert', 'i': rnd.randrange(-cur, cur + 1), 'refs': [rest.pop(0)]})
             cur += 1
-        elif rest and r < 0.5:
+        elif rest and r < 0.40:
             n = rnd.randint(1, len(rest))
-            ops.append({'act': 'extend', 'refs': rest[:n]})
+            ops.append({'act': 'extend', 'refs': rest[:n], 'as': rnd.choice(['list', 'tuple'])})
             del rest[:n]
             cur += n
-        elif cur >= 2 and r < 0.7:
+        elif rest and r < 0.47:
+            ops.append({'act': 'setitem', 'i': rnd.randrange(-cur, cur), 'refs': [rest.pop(0)]})
+        elif cur >= 2 and r < 0.57:
             if rnd.random() < 0.4:
                 ops.append({'act': 'pop', 'default': True})
             else:
                 ops.append({'act': 'pop', 'i': rnd.randrange(-cur, cur)})
             cur -= 1
+        elif cur >= 2 and r < 0.65:
+            ops.append({'act': 'remove', 'i': rnd.randrange(0, cur)})
+            cur -= 1
+        elif r < 0.73:
+            ops.append({'act': 'clear'})
+        elif r < 0.82:
+            ops.append({'act': 'reload'})
         else:
             ops.append({'act': 'fit'})
     if rest:
-        ops.append({'act': 'extend', 'refs': rest})
+        ops.append({'act': 'extend', 'refs': rest, 'as': 'list'})
     if ops[-1]['act'] != 'fit':
         ops.append({'act': 'fit'})
     return _finish_case(rnd, cid, descriptor, names, ops, shape, tmode, T0)
@@ -523,8 +716,8 @@ def _tlc_behaviours(cfg, timeout=900, extra=()):
 
 def run(ctx):
     ctx.coverage['rule'] = (
-        'a case is one history of a References object (construct with fit, then append / extend / insert / '
-        'pop / fit_HoRT_offset calls) together with target species evaluated through it after every call; grid '
+        'a case is one history of a References object (construct with fit or with offset= given, then append / '
+        'extend / insert / __setitem__ / pop / remove / clear_offset / to_dict-from_dict reload / fit_HoRT_offset calls) together with target species evaluated through it after every call; grid '
         'cases are complete TLC behaviours of References.tla (state equality on rational projections after '
         'each call), real cases are random real-valued histories (1-8 references over 1-5 descriptors, '
         'elements or groups, equal / close / spread T_ref, dependent rows, tied columns, under- and '
@@ -537,11 +730,13 @@ def run(ctx):
         cases = []
         import concurrent.futures as cf
         rnd = random.Random(ctx.seed)
-        with cf.ThreadPoolExecutor(max_workers=3) as pool:
+        with cf.ThreadPoolExecutor(max_workers=4) as pool:
             # (S->C) behaviour generation (single TLC worker) runs beside the design model
             fut = pool.submit(_tlc_behaviours, 'MC_References_beh')
             # 3 x 3 squares (full rank and rank 2) of real molecules: invariants checked + behaviours emitted
             fut_sq = pool.submit(_tlc_behaviours, 'MC_References_sq')
+            # remove / __setitem__ / clear_offset / reload and offset= given: invariants + behaviours
+            fut_b2 = pool.submit(_tlc_behaviours, 'MC_References_beh2')
             fut_sim = None
             if not ctx.quick:
                 fut_sim = pool.submit(_tlc_behaviours, 'MC_References_sim', 1500,
@@ -573,14 +768,20 @@ def run(ctx):
             ctx.coverage['tlc_behaviours'] = len(behs)
             sq = fut_sq.result()
             ctx.coverage['tlc_square_behaviours'] = len(sq)
+            b2 = fut_b2.result()
+            ctx.coverage['tlc_further_call_behaviours'] = len(b2)
             if ctx.quick:
                 rnd.shuffle(behs)
-                behs = behs[:1000]
+                behs = behs[:800]
+                rnd.shuffle(sq)
+                sq = sq[:500]
+                rnd.shuffle(b2)
+                b2 = b2[:600]
             else:
                 sim = fut_sim.result()
                 ctx.coverage['tlc_simulated_behaviours'] = len(sim)
                 behs += sim
-        for k, h in enumerate(behs + sq):
+        for k, h in enumerate(behs + sq + b2):
             cases.append(_beh_to_case(h, 'g%d' % k, rnd))
         # pinned: C2H6, H2CO, C3H8O (= C2H6 + H2CO) over C, H, O - a 3 x 3 matrix of rank 2 whose LU
         # factorisation does not meet an exactly zero pivot - and H2CO, C2H4O2, C3H8O (rank 2 as well)
@@ -617,6 +818,21 @@ def run(ctx):
            'refitted_states': 0, 'evals_with_absent_descriptor': 0, 'repro_events': 0,
            'fits_with_unequal_T_ref': 0, 'square_rank_deficient_fits': 0,
            'refits_with_shared_name_and_T_ref': 0}
+    import collections
+    cnt = collections.defaultdict(int, cnt)
+    required = list(cnt) + (
+        ['calls_' + a for a in ('remove', 'setitem', 'clear', 'reload', 'given')]
+        + ['reloads_via_json', 'given_without_references', 'extend_with_tuple', 'negative_indices',
+           'reference_model_given_as_instance', 'references_with_phase', 'fits_with_isomers',
+           'fits_with_all_zero_descriptor', 'fits_with_1_references', 'fits_with_8_references',
+           'fits_with_1_descriptors', 'fits_with_5_descriptors', 'evals_at_T_ref', 'evals_with_no_offsets',
+           'evaluations_at_T_range_ends', 'empirical_nasa', 'empirical_shomate']
+        + ['reference_counts_as_' + c for c in CTYPES] + ['target_counts_as_' + c for c in CTYPES]
+        + ['descriptor_' + d for d in ['elements'] + DESCRIPTOR_ATTRS]
+        + ['T_ref_' + m for m in ('equal', 'close', 'edge_in', 'edge_out', 'spread')]
+        + ['units_' + u.replace('/', '_per_') for u in UNITS]
+        + ['T_passed_as_' + t for t in TTYPES]
+        + ['targets_' + t for t in ('int', 'fractional', 'empty', 'all_absent')])
     for case, (events, _) in zip(cases, results):
         for o in case['ops']:
             if 'det' in o and o.get('isfresh'):
@@ -630,22 +846,71 @@ def run(ctx):
                 1 for e in events if e['ev'] in ('construct', 'fit')
                 and len(e['A']) == nall == len(e['desc']))
         prev = None
+        for o in case['ops']:
+            if o['act'] in ('remove', 'setitem', 'clear', 'reload', 'given'):
+                cnt['calls_' + o['act']] += 1
+            if o['act'] == 'reload' and o.get('via') == 'json':
+                cnt['reloads_via_json'] += 1
+            if o['act'] == 'given' and not o.get('refs'):
+                cnt['given_without_references'] += 1
+            if o['act'] == 'extend' and o.get('as') == 'tuple':
+                cnt['extend_with_tuple'] += 1
+            if o['act'] in ('insert', 'setitem', 'pop') and isinstance(o.get('i'), int) and o['i'] < 0:
+                cnt['negative_indices'] += 1
+            for sp in o.get('refs', []):
+                if sp.get('ctype'):
+                    cnt['reference_counts_as_' + sp['ctype']] += 1
+                if sp.get('form') == 'instance':
+                    cnt['reference_model_given_as_instance'] += 1
+                if sp.get('phase'):
+                    cnt['references_with_phase'] += 1
+        if case['kind'] == 'real':
+            cnt['descriptor_' + case['descriptor']] += 1
+            cnt['T_ref_' + case['tmode']] += 1
+            cnt['units_' + case['units'].replace('/', '_per_')] += 1
+            cnt['T_passed_as_' + case['Ttype']] += 1
+            for t in case['targets']:
+                cnt['targets_' + t['tkind']] += 1
+                cnt['target_counts_as_' + t['ctype']] += 1
+            for T in case['T']:
+                if T in (10.0, 5000.0):
+                    cnt['evaluations_at_T_range_ends'] += 1
         for e in events:
-            if e['ev'] in ('append', 'extend', 'insert', 'pop'):
+            if e['ev'] in ('append', 'extend', 'insert', 'pop', 'remove', 'setitem'):
                 same = prev is not None and (e['keys'], e['off'], e['Tref']) == prev
                 cnt['stale_states' if same else 'refitted_states'] += 1
             if e['ev'] == 'fit':                      # a second or later fit of the same object
                 ks = [(nm, tuple(t)) for nm, t in zip(e['names'], e['Ti'])]
                 if len(set(ks)) < len(ks):
                     cnt['refits_with_shared_name_and_T_ref'] += 1
-            if e['ev'] in ('construct', 'fit') and len({tuple(t) for t in e['Ti']}) > 1:
-                cnt['fits_with_unequal_T_ref'] += 1
-            if e['ev'] in ('construct', 'fit', 'append', 'extend', 'insert', 'pop'):
+            if e['ev'] in ('construct', 'fit'):
+                if len({tuple(t) for t in e['Ti']}) > 1:
+                    cnt['fits_with_unequal_T_ref'] += 1
+                rows = [tuple(r) for r in e['A']]
+                if any(rows[i] == rows[j] and (e['dft'][i], e['exp'][i]) != (e['dft'][j], e['exp'][j])
+                       for i in range(len(rows)) for j in range(i)):
+                    cnt['fits_with_isomers'] += 1
+                if any(0 in [r[j] for r in e['A']] and all(r[j] == 0 for r in e['A'])
+                       for j in range(len(e['desc']))):
+                    cnt['fits_with_all_zero_descriptor'] += 1
+                for tag, n, ends in (('references', len(e['A']), (1, 8)), ('descriptors', len(e['desc']), (1, 5))):
+                    if n in ends:
+                        cnt['fits_with_%d_%s' % (n, tag)] += 1
+            if e['ev'] in ('construct', 'fit', 'append', 'extend', 'insert', 'pop', 'remove', 'setitem',
+                           'clear', 'reload', 'given'):
                 prev = (e['keys'], e['off'], e['Tref'])
-            elif e['ev'] == 'eval' and e['absent']:
-                cnt['evals_with_absent_descriptor'] += 1
+            elif e['ev'] == 'eval':
+                if e['absent']:
+                    cnt['evals_with_absent_descriptor'] += 1
+                if e['T'][0] == prev[2]:
+                    cnt['evals_at_T_ref'] += 1
+                if e['emp']['has']:
+                    cnt['empirical_' + e['emp']['kind']] += 1
+                if not e['keys']:
+                    cnt['evals_with_no_offsets'] += 1
             elif e['ev'] == 'repro':
                 cnt['repro_events'] += 1
+    cnt = {k: cnt[k] for k in sorted(set(required) | set(cnt))}
     ctx.coverage['exercised'] = cnt
     fails, stats = core.validate_traces('Trace_References', 'Trace', traces)
     ctx.count('traces_validated_against_impl', len(traces))
@@ -664,7 +929,7 @@ def run(ctx):
                       detail={'event_indices': idxs[:10], 'first_event': ev})
     if (ctx.replay_case is None and not ctx.violations
             and min(cnt[k] for k in cnt if k != 'refitted_states') == 0):
-        raise core.MachineryError('vacuous run: %r' % (cnt,))
+        raise core.MachineryError('vacuous run, never exercised: %r' % ([k for k in cnt if not cnt[k]],))
     ctx.assume('grid replays: offsets, T_ref and fitted values of the real object are projected to the '
                'nearest rational with denominator <= %d before being compared by equality with TLC\'s '
                'exact rationals (differences below ~1e-7 are invisible there)' % MAXDEN)
